@@ -63,7 +63,7 @@ Proof.
   { split; auto. intros e He1 He2 M. apply (H4 e He1 He2).
     apply N.divide_trans with d; auto. apply mod0_divide; [lia | auto]. }
   destruct (N.eq_dec d n) as [-> | Ne]; [left; auto | right].
-  exists d; repeat split; auto.
+  exists d; split; [exact Pd | split; [exact H3 |]].
   destruct H3 as [k Hk].
   assert (Hk1 : 1 < k).
   { destruct (N.le_gt_cases k 1) as [L | L]; auto.
@@ -112,7 +112,7 @@ Lemma is_prime_sound n : is_prime n = true -> Nprime n.
 Proof.
   unfold is_prime. intros H. apply andb_true_iff in H. destruct H as [H1 H2].
   split; [lia |].
-  apply (trial_sound _ 2 n); auto; [lia |]. intros; lia.
+  refine (trial_sound _ 2 n _ H2 _); [lia | intros; lia].
 Qed.
 
 (* a prime whose square exceeds 2^31 while staying below 2^32 *)
@@ -208,14 +208,6 @@ Proof.
     destruct I as [<- | I]; [| apply IH; auto].
     assert (In (last (b :: l) 0) (b :: l)) by (apply last_in; discriminate).
     pose proof (SS_lt_head _ _ _ S H). lia.
-Qed.
-
-Lemma last_app_cons (l : list N) a r d : last (l ++ a :: r) d = last (a :: r) d.
-Proof.
-  induction l as [| b l IH]; auto.
-  cbn [app]. destruct (l ++ a :: r) eqn:E.
-  - destruct l; discriminate.
-  - rewrite <- E. cbn [last]. rewrite E. rewrite <- E. exact IH.
 Qed.
 
 (* ---------- take_le ---------- *)
